@@ -17,7 +17,8 @@ LEVEL = "exploration"
 METHODS = compare.ALL_METHODS
 TERMS = ["a", "1", "b", "x", "2", ""]
 RULE = ("E1: every document <= 3 nodes without sets (keys a/b replaced by "
-        "keys carrying escapable characters on a rotating subset) plus a "
+        "keys carrying escapable characters on a rotating subset, and by "
+        "negative/zero/wide integer and number-like text keys on another) plus a "
         "family with scalar anchors and aliases (alias under a key, inside "
         "a sequence, outside the anchor's subtree, first anchor below the "
         "root) x expressions = 9 operators x inverted x %d terms (strided) "
@@ -307,6 +308,12 @@ def docs_for():
         if i % 5 == 4:
             k = SPECIAL_KEYS[(i // 5) % len(SPECIAL_KEYS)]
             s = remap_spec(s, {"a": k})
+        elif i % 5 == 2:
+            # negative / zero / wide integer keys, number-like text keys
+            # (not "twin-text": keys 1 and '1' in one hash are spelled the
+            # same in a path, so no printed path can tell them apart)
+            kvs = [v for v in gdocs.KEY_VARIANTS if v[0] != "twin-text"]
+            s = gdocs.remap_keys(s, kvs[(i // 5) % len(kvs)][1])
         out.append(s)
     return family() + out
 
